@@ -1,5 +1,6 @@
 """Per-property checks.  Each handler returns the number of violations."""
 import os
+import re
 import vlib
 from vlib import Infra, log
 
@@ -50,7 +51,7 @@ PREPARE = {"C08": prepare_vtime, "C18": prepare_vtime, "C20": prepare_shims, "C1
 
 
 def seq_container(ctx, driver, trace_module, model_checks, depth, shards=8, extra_args=(), kf_controls=(),
-                  variant_of=None, prepare=None, procs=False):
+                  variant_of=None, prepare=None, procs=False, after=None):
     """Sequential containers (DESIGN section 7, common part):
        1. TLC model check of the property-level spec against its declarative restatement;
        2. directed probe of every open known finding;
@@ -80,6 +81,8 @@ def seq_container(ctx, driver, trace_module, model_checks, depth, shards=8, extr
                                panics_recorded=summ["panics"], extra=summ.get("extra", {}))
     kw = dict(variant_of=variant_of) if variant_of else {}
     nviol = vlib.check_recordings(ctx, driver, trace_module, summ["files"], opn, **kw)
+    if after and not nviol:
+        after(ctx, summ["files"])
     vlib.write_evidence(ctx, exhaustive=False)
     return nviol
 
@@ -97,10 +100,35 @@ def c06(ctx):
                          kf_controls=[("StackMC", "StackMC_kf.cfg", "LIFO")])
 
 
+def design_layer(ctx, module, files, tag):
+    """Informational binding of a design-level model to the recordings (DESIGN section 8): counts the calls
+    whose observed structure equals the model's prediction.  Never a verdict."""
+    cfg = ctx.write_cfg(module + "_info.cfg", "SPECIFICATION Spec\nCHECK_DEADLOCK FALSE\n")
+    cmpn = diff = 0
+    for r in ctx.validate_files([(f, "info") for f in files], module, cfg):
+        ctx.require_ok(r, "design-layer pass %s" % module)
+        cmpn += len(re.findall(r'^<<"LAYCMP"', r["out"], re.M))
+        diff += len(re.findall(r'^<<"LAYDIFF"', r["out"], re.M))
+        ctx.states += r["distinct"]
+        ctx.transitions += r["generated"]
+    ctx.notes[tag] = dict(module=module, calls_compared=cmpn, calls_where_structure_differs=diff,
+                          note="informational: no listed property pins the internal structure")
+
+
 @handler("C03")
 def c03(ctx):
+    post = []
+
+    def after(ctx, files):
+        opn, _ = vlib.known_findings(ctx.prop)
+        # design level: the array algorithms as written refine Heap.tla; with Delete as written the array
+        # stops being a heap (the open finding KF-C03-1 reproduced on the model), with the repair it does not
+        ctx.model_check("HeapArrayMC", "HeapArrayMC.cfg", workers=8)
+        if any(k["id"] == "KF-C03-1" for k in opn):
+            ctx.model_check("HeapArrayMC", "HeapArrayMC_kf.cfg", expect_violation="IsOrdered")
+        design_layer(ctx, "HeapArrayTrace", [f for f in files if "sort" not in f], "design_layer_heap_array")
     return seq_container(ctx, "heap", "HeapTrace", [("HeapMC", "HeapMC.cfg")],
-                         depth=dict(quick=3, thorough=4), shards=12)
+                         depth=dict(quick=3, thorough=4), shards=12, after=after)
 
 
 @handler("C04")
@@ -112,8 +140,15 @@ def c04(ctx):
 
 @handler("C10")
 def c10(ctx):
+    def after(ctx, files):
+        # design level: the node algorithm (split in halves, root split adds a level, tombstones) refines the
+        # ordered map and keeps 2^height <= distinct keys ever put for EVERY order of puts and removes
+        ctx.model_check("BTreeNodesMC", "BTreeNodesMC%s.cfg" % ("_deep" if ctx.tier == "thorough" else ""), workers=8, xmx="12g")
+        ctx.model_check("BTreeNodesMC", "BTreeNodesMC_orders.cfg", workers=8, xmx="12g")
+        design_layer(ctx, "BTreeNodesTrace", [f for f in files if ".lin." not in f] + [f for f in files if ".lin." in f][:1],
+                     "design_layer_btree_nodes")
     return seq_container(ctx, "btree", "BTreeTrace", [("BTreeMC", "BTreeMC.cfg")],
-                         depth=dict(quick=5, thorough=6), shards=12)
+                         depth=dict(quick=5, thorough=6), shards=12, after=after)
 
 
 @handler("C07")
